@@ -1720,6 +1720,13 @@ def explicit(tier, seed):
                            "mut": ["none"]}
     for name in sorted(EMPTY_KAT):
         yield {"src": "kat", "name": name, "mut": ["none"]}
+    # saved inputs of earlier findings of the coverage-guided stage
+    import json as _json
+    from vlib import ROOT as _ROOT
+    reg = os.path.join(_ROOT, "assets", "regress", "c15_raw.json")
+    if os.path.exists(reg):
+        for c in _json.load(open(reg)):
+            yield {k: v for k, v in c.items() if k != "note"}
     for i, e in enumerate(corpus()):
         if e["bytes"][0] == 11 and tuple(e["ctx"]["ver"]) == (3, 4):
             for how in range(4):
